@@ -76,9 +76,12 @@ def estimator_part(ctx, fails):
         df, meta = datagen.mixed_frame(ctx.rng, n=ctx.rng.randint(50, 90), outcome=otype)
         rs = np.random.RandomState(ctx.rng.randrange(2 ** 31))
         df['w'] = rs.randint(1, 6, size=len(df))
+        df, dr = datagen.dress(df, ctx.rng, i)       # row labels / exposure storage type of the weighted frame only
+        ctx.count('row labels:' + dr['index'])
+        ctx.count('exposure dtype:' + dr['adtype'])
         rep = replicate(df)
         rhs = meta['rhs']
-        payload = {'part': 'estimators', 'data': df.to_dict('list'), 'meta': meta}
+        payload = {'part': 'estimators', 'frame': datagen.pack_frame(df), 'meta': meta}
         ctx.evaluations += 1
         ctx.count('outcome:' + otype)
         ctx.nontriv([otype, df['Y'].tolist()[:8], df['w'].tolist()[:8]])
@@ -135,7 +138,7 @@ def estimator_part(ctx, fails):
         both(f, df, rep, 'AIPTW', 'AIPTW', fails, ctx, payload)
         # AIPTW with missing outcomes
         dfm = df.copy()
-        dfm.loc[rs.choice(len(dfm), size=max(2, len(dfm) // 10), replace=False), 'Y'] = np.nan
+        dfm.loc[dfm.index[rs.choice(len(dfm), size=max(2, len(dfm) // 10), replace=False)], 'Y'] = np.nan
         both(f, dfm, replicate(dfm), 'AIPTW.missing-outcome', 'AIPTW with missing outcomes', fails, ctx,
              {'part': 'estimators', 'data': {c: [None if (isinstance(v, float) and v != v) else v for v in dfm[c].tolist()] for c in dfm.columns}, 'meta': meta})
         if otype != 'poisson':
